@@ -32,12 +32,15 @@ theorem copy_loop_shape :
 /-- `SNIProxy.ServeTCP`: a default-size `bufio.Reader` over the client connection, `Peek(9)`, the size from
 the peeked header, `io.ReadFull` through the same reader, the parser on `hello[5:]`, lookup, dial, PROXY line
 (which writes to the upstream), the hello, then the two concurrent copies — the client→upstream one reading
-from the buffered reader (`codeCopySrc`) — and one receive from the error channel. No other event. -/
+from the buffered reader (`codeCopySrc`); each reports on the error channel when it ends, the client→upstream
+one after `CloseWrite` on the upstream and a wait for the client connection's `Done()` (see
+`tunnel_teardown_mode`) — and one receive from the error channel. No other event. -/
 theorem sni_call_order :
     Generated.C09.sniEvents =
       ["bufreader(client)", "peek(9)", "size(header)", "readfull(bufreader)", "parse(hello[5:])", "lookup",
        "dial", "proxyheader(upstream,client)", "write(upstream,other)", "write(upstream,hello)",
-       "go copy client<-upstream", "go copy upstream<-bufreader", "recv"] ∧
+       "go copy client<-upstream", "go send",
+       "go copy upstream<-bufreader", "upstream.CloseWrite()", "go wait(client.Done)", "go send", "recv"] ∧
     codeCopySrc = .buffered :=
   ⟨rfl, rfl⟩
 
@@ -48,23 +51,33 @@ the two concurrent copies → one receive. -/
 theorem tcp_call_order :
     Generated.C09.tcpEvents =
       ["lookup", "dial", "proxyheader(upstream,client)", "write(upstream,other)",
-       "go copy client<-upstream", "go copy upstream<-client", "recv"] ∧
+       "go copy client<-upstream", "go send",
+       "go copy upstream<-client", "upstream.CloseWrite()", "go wait(client.Done)", "go send", "recv"] ∧
     Generated.C09.dynEvents =
       ["lookup", "lookup", "dial", "proxyheader(upstream,client)", "write(upstream,other)",
-       "go copy client<-upstream", "go copy upstream<-client", "recv"] ∧
+       "go copy client<-upstream", "go send",
+       "go copy upstream<-client", "upstream.CloseWrite()", "go wait(client.Done)", "go send", "recv"] ∧
     Generated.C09.wsEvents =
       ["hijack", "dial", "writeto(upstream)", "upstream.SetReadDeadline(now+d)", "read(upstream,1024)",
        "write(client,hsbuf)", "hasprefix(hsbuf,[]byte(\"HTTP/1.1 101\"))", "upstream.SetReadDeadline(zero)",
-       "go copy upstream<-client", "go copy client<-upstream", "recv"] :=
+       "go copy upstream<-client", "upstream.CloseWrite()", "go return", "go send",
+       "go copy client<-upstream", "go send", "recv"] :=
   ⟨rfl, rfl, rfl⟩
 
-/-- All four tunnels: the error channel has room for both results and the handler receives **once** (mode
-`firstEnds` of the tunnel machine). -/
-theorem first_finished_direction_ends_tunnel :
+/-- The teardown rule of all four tunnels is mode `clientHalf` of the tunnel machine (`codeMode`): the error
+channel has room for both results and the handler receives **once**; the upstream→client goroutine reports when its
+copy ends (`go copy client<-upstream`, `go send`); the client→upstream goroutine, when its copy has ended, calls
+`CloseWrite` on the upstream connection and — in the tcp handlers — waits for the client connection's `Done()`
+before it reports (`upstream.CloseWrite()`, `go wait(client.Done)`, `go send` in the event lists of
+`sni_call_order`/`tcp_call_order`), in the websocket handler ends without reporting (`go return` before its
+`go send`). So a client EOF alone never ends the tunnel: the receive is fed by the end of the upstream→client
+direction, by an error, or — tcp handlers — by the client connection being closed (`serverClose`). -/
+theorem tunnel_teardown_mode :
     (Generated.C09.tcpErrcCap = 2 ∧ Generated.C09.tcpErrcReceives = 1) ∧
     (Generated.C09.sniErrcCap = 2 ∧ Generated.C09.sniErrcReceives = 1) ∧
     (Generated.C09.dynErrcCap = 2 ∧ Generated.C09.dynErrcReceives = 1) ∧
-    (Generated.C09.wsErrcCap = 2 ∧ Generated.C09.wsErrcReceives = 1) := by decide
+    (Generated.C09.wsErrcCap = 2 ∧ Generated.C09.wsErrcReceives = 1) ∧
+    codeMode = .clientHalf := by decide
 
 /-- Who writes a PROXY line: the three tcp handlers (event `proxyheader` above; `dynWritesProxyHeader` is the
 model's constant for tcp-dynamic), not the websocket handler. -/
@@ -85,14 +98,18 @@ theorem proxy_header_parts :
 /-- The socket contract the tunnel machine assumes (orderly close, writes without deadline) is not
 disturbed by the code: the event lists above are complete with respect to socket-option, deadline and
 half-close calls (`SetLinger`, `Set*Deadline`, `SetNoDelay`, `SetKeepAlive*`, `Set*Buffer`, `CloseWrite`,
-`CloseRead`) on every path from the handlers — the tcp handlers and `copyBuffer` have none, the websocket
-handler only bounds its handshake read and clears that deadline before the copy phase — and the connection
+`CloseRead`) on every path from the handlers — `copyBuffer` has none, the handlers only the `CloseWrite` on the
+upstream connection that passes the client's EOF on (after the client→upstream copy has ended, see
+`tunnel_teardown_mode`), the websocket handler besides that only bounds its handshake read and clears that deadline
+before the copy phase — and the connection
 wrapper `Server.Serve` puts around accepted connections sets per-call deadlines only under a configured
 `ReadTimeout`/`WriteTimeout`. -/
 theorem no_socket_options_in_tunnel_handlers :
-    Generated.C09.tcpSockOpts = [] ∧ Generated.C09.sniSockOpts = [] ∧ Generated.C09.dynSockOpts = [] ∧
+    Generated.C09.tcpSockOpts = ["upstream.CloseWrite()"] ∧ Generated.C09.sniSockOpts = ["upstream.CloseWrite()"] ∧
+    Generated.C09.dynSockOpts = ["upstream.CloseWrite()"] ∧
     Generated.C09.copySockOpts = [] ∧ tunnelHandlersTouchSocketOptions = false ∧
-    Generated.C09.wsSockOpts = ["upstream.SetReadDeadline(now+d)", "upstream.SetReadDeadline(zero)"] ∧
+    Generated.C09.wsSockOpts =
+      ["upstream.SetReadDeadline(now+d)", "upstream.SetReadDeadline(zero)", "upstream.CloseWrite()"] ∧
     Generated.C09.serverSockOpts =
       ["Read: SetReadDeadline(now+recv.ReadTimeout) if recv.ReadTimeout > 0",
        "SetDeadline: SetDeadline(p0)", "SetReadDeadline: SetReadDeadline(p0)", "SetWriteDeadline: SetWriteDeadline(p0)",
